@@ -64,6 +64,8 @@ def load_known():
                 cases = None
                 if "cases" in e:
                     cases = set(e["cases"])
+                elif "cases_file" in e or "cases_file_thorough" in e:
+                    cases = set()  # an entry with case lists matches nothing but the listed cases (of the running tier)
                 for fkey in ("cases_file", "cases_file_thorough"):
                     if fkey in e and (fkey == "cases_file" or _tier == "thorough"):
                         p = os.path.join(ROOT, e[fkey])
